@@ -516,3 +516,21 @@ Proof.
   rewrite (count_re_print c a Hc Hne Hwf), (parse_int0_print c Hc), (parse_all_hex_print a Hwf).
   rewrite map_map. reflexivity.
 Qed.
+
+(* ------------------------------------------------------------------ rate <= 1: raw values *)
+Lemma scale_rate_le_1_lemma : forall un c s rate, rate <= 1 -> c <> 0 -> s <> 0 ->
+  scale_heap_sample un c s rate = (c, s).
+Proof.
+  intros un c s rate Hr Hc Hs. unfold scale_heap_sample.
+  replace (c =? 0) with false by (symmetry; apply Z.eqb_neq; exact Hc).
+  replace (s =? 0) with false by (symmetry; apply Z.eqb_neq; exact Hs).
+  replace (rate <=? 1) with true by (symmetry; apply Z.leb_le; exact Hr). reflexivity.
+Qed.
+
+Lemma unsampled_rate_le_1_lemma : forall un d c s, hd_period d <= 1 -> s <> 0 -> unsampled un d c s = [c; s].
+Proof.
+  intros un d c s Hr Hs. unfold unsampled.
+  replace (1 <? hd_period d) with false by (symmetry; apply Z.ltb_ge; exact Hr).
+  replace (s =? 0) with false by (symmetry; apply Z.eqb_neq; exact Hs).
+  rewrite !andb_false_r. reflexivity.
+Qed.
